@@ -611,7 +611,46 @@ fn bits(b: &[bool]) -> String {
     b.iter().map(|x| if *x { '1' } else { '0' }).collect()
 }
 
+/// Filters that differ only INSIDE a literal (runs of blanks, tabs, case, a trailing blank), parsed from text one after
+/// the other in one process and evaluated: each selects by ITS literal (whatever is kept between two parses - a cache
+/// keyed by normalised text - must not hand the second one the first one's tree)
+fn exec_lookalike(out: &mut CaseOut) {
+    out.nontrivial = true;
+    out.stat("lookalike");
+    let lits = ["AHU 1", "AHU  1", "AHU\t1", "AHU 1 ", " AHU 1", "ahu 1", "AHU   1", "AHU1"];
+    let recs: Vec<Dict> = lits
+        .iter()
+        .map(|l| {
+            let mut d = Dict::new();
+            d.insert("dis".into(), Value::make_str(l));
+            d.insert("u".into(), Value::make_uri(l));
+            d
+        })
+        .collect();
+    for round in 0..2 {
+        for (i, l) in lits.iter().enumerate() {
+            let esc = l.replace('\t', "\\t");
+            for (text, tag) in [(format!("dis == \"{esc}\""), "dis"), (format!("dis   ==   \"{esc}\""), "dis"), (format!("u == `{}`", l.replace('\t', " ")), "u")] {
+                let filter = match Filter::try_from(text.as_str()) {
+                    Ok(f) => f,
+                    Err(e) => return out.fail("harness", format!("filter {text}: {e}")),
+                };
+                for (j, r) in recs.iter().enumerate() {
+                    let want = if tag == "dis" { i == j } else { lits[j].replace('\t', " ") == l.replace('\t', " ") };
+                    let got = r.filter(&filter);
+                    if got != want {
+                        out.fail("eval_spec", format!("round {round}: `{text}` on {{{tag}: {:?}}} is {got}, the literal {} the tag's value", lits[j], if want { "equals" } else { "differs from" }));
+                    }
+                }
+            }
+        }
+    }
+}
+
 pub fn exec(_label: &str, input: &str, out: &mut CaseOut) {
+    if input == "lookalike" {
+        return exec_lookalike(out);
+    }
     if let Some(n) = input.strip_prefix("biggrid ") {
         return exec_biggrid(n.parse().unwrap_or(1027), out);
     }
@@ -1225,11 +1264,28 @@ fn exec_biggrid(n: usize, out: &mut CaseOut) {
             if i % 7 == 3 || i + 3 >= n {
                 d.insert("hot".into(), Value::Marker);
             }
+            // ids are NOT unique in a grid (history rows, versions of one record): several rows share `@a`, `@b`
+            d.insert("id".into(), Value::make_ref(match i % 11 { 0 | 5 => "a", 3 => "b", _ => "c" }));
+            if i % 2 == 0 {
+                d.insert("point".into(), Value::Marker);
+            }
             d
         })
         .collect();
     let grid = Grid::make_from_dicts(rows);
-    for text in [format!("idx == {}", n - 1), format!("idx >= {}", n.saturating_sub(3)), "hot".to_string(), "idx == 0".to_string(), "not hot and idx > 5".to_string(), "nope".to_string()] {
+    for text in [
+        format!("idx == {}", n - 1),
+        format!("idx >= {}", n.saturating_sub(3)),
+        "hot".to_string(),
+        "idx == 0".to_string(),
+        "not hot and idx > 5".to_string(),
+        "nope".to_string(),
+        "id == @a".to_string(),
+        "point and id == @a".to_string(),
+        "id == @b and idx > 4".to_string(),
+        "id == @a or id == @b".to_string(),
+        "id == @zz".to_string(),
+    ] {
         let filter = match Filter::try_from(text.as_str()) {
             Ok(f) => f,
             Err(e) => return out.fail("harness", format!("filter {text}: {e}")),
@@ -1248,7 +1304,8 @@ fn exec_biggrid(n: usize, out: &mut CaseOut) {
 }
 
 pub fn generate(ctx: &mut Ctx) {
-    for n in [1000usize, 1023, 1024, 1025, 1027, 2047, 4099, 10007] {
+    ctx.case("lookalike", "lookalike");
+    for n in [3usize, 40, 1000, 1023, 1024, 1025, 1027, 2047, 4099, 10007] {
         ctx.case("biggrid", &format!("biggrid {n}"));
     }
     // 1. every single-term filter of the small universe, on every record of it, both ways
